@@ -116,4 +116,60 @@ theorem parseHexU16_hexUp (v : Nat) (h : v < 65536) : DerRd.parseHexU16 (hexUp 4
   congr 1
   omega
 
+/-! ## distinguished names -/
+
+/-- the X.509 attribute (OID, string tag, value octets) a Matter DN attribute is written as -/
+def Attr.toX (a : Attr) : Option DerRd.Attr :=
+  match DN_ENCODING[a.tag - 1]? with
+  | some (oid, expected) =>
+    (attrString expected a.val).map fun p => { oid := oid, tag := if p.1 then 0x13 else 0x0c, value := p.2 }
+  | none => none
+
+theorem dn_table_facts : ∀ i, i < 22 → (DN_ENCODING[i]?.map fun p =>
+    DerRd.oidValid p.1 && decide (p.1 ≠ DerRd.OID_MATTER_VENDOR_ID) && decide (p.1 ≠ DerRd.OID_MATTER_PRODUCT_ID)) = some true := by
+  decide
+
+theorem attr_toX (a : Attr) (n : Node) (hw : a.WF) (hn : attrNode a = some n) :
+    ∃ x, a.toX = some x ∧ n.encRd = DerRd.encRdn x ∧ x.WF ∧
+      ∀ acc, DerRd.dnApply acc (x.oid, (x.tag, x.value)) = .ok acc := by
+  obtain ⟨oid, expected, p, h1, h2⟩ := attr_string_some a hw
+  have hf := dn_table_facts (a.tag - 1) (by have := hw.1; have := hw.2.1; omega)
+  simp only [h1, Option.map_some, Option.some.injEq, Bool.and_eq_true, decide_eq_true_eq] at hf
+  obtain ⟨⟨f1, f2⟩, f3⟩ := hf
+  simp only [attrNode, h1, h2, Option.some.injEq] at hn
+  subst hn
+  refine ⟨{ oid := oid, tag := if p.1 then 0x13 else 0x0c, value := p.2 }, by simp [Attr.toX, h1, h2], ?_, ⟨f1, ?_⟩, ?_⟩
+  · simp [Node.encRd, Node.encRdL, seq, strNode, DerRd.encRdn, DerRd.encOid, DerRd.TAG_SET, DerRd.TAG_SEQUENCE, DerRd.TAG_OID]
+  · cases p.1 <;> simp [DerRd.tagOfByte]
+  · intro acc
+    simp [DerRd.dnApply, f2, f3]
+
+theorem attrs_toX (l : List Attr) (ns : List Node) (hw : ∀ a ∈ l, a.WF) (hn : mapO attrNode l = some ns) :
+    ∃ xs, mapO Attr.toX l = some xs ∧ Node.encRdL ns = DerRd.encRdns xs ∧ (∀ x ∈ xs, x.WF) ∧ xs.length = l.length ∧
+      ∀ acc, DerRd.dnFold xs acc = some acc := by
+  induction l generalizing ns with
+  | nil => simp [mapO] at hn; subst hn; exact ⟨[], rfl, rfl, by simp, rfl, fun _ => rfl⟩
+  | cons a r ih =>
+    obtain ⟨b, bs, h1, h2, rfl⟩ := mapO_some_cons _ _ _ _ hn
+    obtain ⟨x, x1, x2, x3, x4⟩ := attr_toX a b (hw a (by simp)) h1
+    obtain ⟨xs, y1, y2, y3, y4, y5⟩ := ih bs (fun c hc => hw c (by simp [hc])) h2
+    refine ⟨x :: xs, by simp [mapO, x1, y1], by simp [Node.encRdL, x2, y2, DerRd.encRdns_cons], ?_, by simp [y4], ?_⟩
+    · intro c hc; rcases List.mem_cons.1 hc with rfl | hc; exact x3; exact y3 c hc
+    · intro acc; simp [DerRd.dnFold, x4, y5]
+
+/-- **`Name::decode` on a DN `as_asn1` wrote**: the raw RDNSequence octets it returns are the X.509 encoding of the
+attribute list (OID, string type, value) and it finds no vendor / product id (Matter operational DNs have none) -/
+theorem run_name_asn1 (l : List Attr) (n : Node) (hw : ∀ a ∈ l, a.WF) (hn : dnNode l = some n) (rest : List Nat) (fuel : Nat)
+    (hf : l.length < fuel + 2) :
+    ∃ xs, mapO Attr.toX l = some xs ∧
+      DerRd.Run (DerRd.dName (fuel + 2)) (n.encRd ++ rest) (fun y => y = (DerRd.encRdns xs, { vid := none, pid := none })) rest := by
+  unfold dnNode at hn
+  cases h1 : mapO attrNode l with
+  | none => simp [h1] at hn
+  | some ns =>
+    simp [h1] at hn; subst hn
+    obtain ⟨xs, y1, y2, y3, y4, y5⟩ := attrs_toX l ns hw h1
+    refine ⟨xs, y1, ?_⟩
+    have := DerRd.run_name (attrs := xs) (fuel := fuel) (rest := rest) y3 (y5 _) (by omega)
+    simpa [seq, Node.encRd, y2, DerRd.encName, DerRd.TAG_SEQUENCE] using this
 end Codec.CertAsn1
